@@ -37,6 +37,7 @@ pub mod scen_batch;
 pub mod scen_codec;
 pub mod scen_core;
 pub mod scen_ctors;
+pub mod scen_threads;
 pub mod scen_nonce;
 pub mod scen_gens;
 pub mod scen_recover;
@@ -54,6 +55,10 @@ fn main() {
     if args.len() < 2 {
         eprintln!("usage: bpp_harness <scenario> [quick|thorough] [seed]");
         std::process::exit(2);
+    }
+    if args[1] == "C18-child" {
+        scen_threads::child(args.get(2).and_then(|s| s.parse().ok()).unwrap_or(16));
+        return;
     }
     let opts = Opts {
         thorough: args.get(2).map(|s| s == "thorough").unwrap_or(false),
@@ -79,6 +84,12 @@ fn main() {
         },
         "C13" => scen_nonce::c13(&opts, &mut out),
         "C14" => scen_nonce::c14(&opts, &mut out),
+        "C16" => {
+            fmrun::c16_run(&opts, &mut out);
+            rrun::c16_run(&opts, &mut out);
+            out.case("proof shapes: rounds in {1..13, 40, 70, 2^10}, d1 length = / != degree, identity or undecodable point at chosen slots; statements (bits, agg, cap, degree) incl. seeded; 3 modes; batch length mismatches; random decoder inputs; both groups; build: release + debug-assertions + overflow-checks".into());
+        },
+        "C18" => scen_threads::c18(&opts, &mut out),
         "C07" => scen_recover::c07(&opts, &mut out),
         "C08" => scen_recover::c08(&opts, &mut out),
         "C09" => scen_recover::c09(&opts, &mut out),
